@@ -19,8 +19,11 @@ GUARD = "MP_VERIF_HOOKS"
 DEFINES = ['-DNDEBUG', '-D' + GUARD, '-DMP_DATE=20240320',
            '-DMP_SYSINFO="Linux x86_64"', '-DMP_USE_ATOMIC', '-DMP_USE_HASH',
            '-DMP_USE_UNIQUE_PTR']
-INCLUDES = ['-I' + REPO + '/include', '-I' + REPO + '/src',
-            '-I' + REPO + '/nl-writer2/include', '-I' + HARN]
+INCLUDES_REPO = ['-I' + REPO + '/include', '-I' + REPO + '/src', '-I' + REPO + '/nl-writer2/include']
+# the regenerated nl-opcodes.h (see generated()) shadows the git-ignored copy in /repo
+INCLUDES = ['-I' + os.path.join(BUILD, 'gen', 'include')] + INCLUDES_REPO + ['-I' + HARN]
+# the nlw2 library of the repository is built with its own include directory only (it has its own copy of nl-header.h)
+INCLUDES_NLW2 = ['-I' + os.path.join(BUILD, 'gen', 'include'), '-I' + REPO + '/nl-writer2/include']
 
 LIB_SRCS = ['src/' + f for f in (
     'expr.cc nl-reader.cc option.cc os.cc problem.cc rstparser.cc sol.cc '
@@ -119,6 +122,45 @@ class BuildError(Exception):
     pass
 
 
+GEN = os.path.join(BUILD, 'gen')
+_gen_done = [False]
+
+
+def generated():
+    """src/expr-info.cc and nl-writer2/include/mp/nl-opcodes.h are products of src/gen-expr-info.cc (add_custom_command in the repository's
+    CMakeLists.txt; git-ignored).  They are regenerated here from the current working tree, so that a change of the generator reaches the
+    checks exactly as it reaches the repository's own build; the copies lying in /repo are not used."""
+    if _gen_done[0]:
+        return
+    tool = os.path.join(GEN, 'gen-expr-info')
+    cmd = ['g++', '-std=c++17', '-O1'] + DEFINES + INCLUDES_REPO
+    objs = []
+    rebuilt = False
+    for sname in ('src/gen-expr-info.cc', 'src/format.cc', 'src/posix.cc'):
+        o = os.path.join(GEN, 'obj', sname.replace('/', '_') + '.o')
+        r = _compile_one(cmd, os.path.join(REPO, sname), o)
+        rebuilt = rebuilt or r[1]
+        objs.append(o)
+    out_cc = os.path.join(GEN, 'src', 'expr-info.cc'); out_h = os.path.join(GEN, 'include', 'mp', 'nl-opcodes.h')
+    if rebuilt or not (os.path.exists(tool) and os.path.exists(out_cc) and os.path.exists(out_h)):
+        os.makedirs(os.path.dirname(out_cc), exist_ok=True); os.makedirs(os.path.dirname(out_h), exist_ok=True)
+        tmp = '%s.%d' % (tool, os.getpid())
+        p = subprocess.run(['g++'] + objs + ['-o', tmp], capture_output=True, text=True)
+        if p.returncode != 0:
+            raise BuildError('link failed: gen-expr-info\n' + p.stderr[-3000:])
+        t_cc, t_h = '%s.%d' % (out_cc, os.getpid()), '%s.%d' % (out_h, os.getpid())
+        p = subprocess.run([tmp, t_cc, t_h], capture_output=True, text=True)
+        if p.returncode != 0 or not os.path.exists(t_cc) or not os.path.exists(t_h):
+            raise BuildError('gen-expr-info failed: ' + (p.stdout + p.stderr)[-2000:])
+        for a, b in ((t_cc, out_cc), (t_h, out_h)):        # keep the files (and their mtimes) when the content is unchanged
+            if os.path.exists(b) and open(a, 'rb').read() == open(b, 'rb').read():
+                os.unlink(a)
+            else:
+                os.replace(a, b)
+        os.replace(tmp, tool)
+    _gen_done[0] = True
+
+
 def objname(variant, src, tag=''):
     base = src.replace('/', '_').replace('.', '_')
     return os.path.join(BUILD, variant, 'obj', base + tag + '.o')
@@ -131,14 +173,18 @@ def build(variant, name, harness_srcs, lib=True, nlw2=False, extra_srcs=(),
     harness_srcs: files under /verif/harness; repo_srcs: further files under
     /repo compiled into this target only (e.g. src/gsl/amplgsl.cc).
     """
+    generated()
     v = VARIANTS[variant]
     base = [v['cxx']] + shlex.split(v['flags']) + DEFINES + INCLUDES + list(extra_flags)
+    base_nlw2 = [v['cxx']] + shlex.split(v['flags']) + DEFINES + INCLUDES_NLW2 + list(extra_flags)
     jobs = []
     srcs = []
     if lib:
-        srcs += [(os.path.join(REPO, s), objname(variant, s, tag)) for s in LIB_SRCS]
+        srcs += [(os.path.join(GEN, 'src', 'expr-info.cc') if s == 'src/expr-info.cc' else os.path.join(REPO, s), objname(variant, s, tag)) for s in LIB_SRCS]
+    nlw2_objs = set()
     if nlw2:
         srcs += [(os.path.join(REPO, s), objname(variant, s, tag)) for s in NLW2_SRCS]
+        nlw2_objs = {objname(variant, s, tag) for s in NLW2_SRCS}
     for s in repo_srcs:
         srcs.append((os.path.join(REPO, s), objname(variant, s, tag + '_' + name)))
     for s in list(harness_srcs) + list(extra_srcs):
@@ -146,7 +192,7 @@ def build(variant, name, harness_srcs, lib=True, nlw2=False, extra_srcs=(),
     t0 = time.time()
     rebuilt = 0
     with ThreadPoolExecutor(max_workers=int(os.environ.get('VERIF_JOBS', '16'))) as ex:
-        futs = [ex.submit(_compile_one, base, s, o) for s, o in srcs]
+        futs = [ex.submit(_compile_one, base_nlw2 if o in nlw2_objs else base, s, o) for s, o in srcs]
         res = [f.result() for f in futs]
     rebuilt = sum(1 for r in res if r[1])
     exe = os.path.join(BUILD, variant, 'bin', name)
